@@ -58,3 +58,223 @@ Proof.
       destruct H as [H|H]; [discriminate|]. apply IH; assumption.
     + discriminate.
 Qed.
+
+(* ---------- the pop loop of __Pyx_ParseKeywordDictToDict ---------- *)
+Lemma key_eq_two : forall k n n', key_eq k n = true -> key_eq k n' = true -> n = n'.
+Proof.
+  intros k n n' A B. apply key_eq_name in A as [A _]. apply key_eq_name in B as [B _]. congruence.
+Qed.
+
+Lemma dict_get_del_other : forall V n n' (d : list (key * V)), n <> n' ->
+  dict_get n' (dict_del n d) = dict_get n' d.
+Proof.
+  intros V n n' d NE; induction d as [|[k v] r IH]; [reflexivity|].
+  cbn [dict_del dict_get]. destruct (key_eq k n) eqn:E.
+  - destruct (key_eq k n') eqn:E'; [exfalso; apply NE; exact (key_eq_two _ _ _ E E')|reflexivity].
+  - cbn [dict_get]. rewrite IH. reflexivity.
+Qed.
+
+Lemma existsb_false_In : forall A (f : A -> bool) l x, existsb f l = false -> In x l -> f x = false.
+Proof.
+  intros A f l x H I. destruct (f x) eqn:E; [|reflexivity].
+  assert (existsb f l = true) by (apply existsb_exists; exists x; auto). congruence.
+Qed.
+
+(* with distinct keys, deleting a name removes exactly the keys equal to it *)
+Lemma dict_del_filter : forall V n (d : list (key * V)), keys_nodup d = true ->
+  dict_del n d = filter (fun kv => negb (key_eq (fst kv) n)) d.
+Proof.
+  intros V n d; induction d as [|[k v] r IH]; intros KN; [reflexivity|].
+  cbn [keys_nodup] in KN. apply andb_true_iff in KN as [K1 K2]. apply negb_true_iff in K1.
+  cbn [dict_del filter fst]. destruct (key_eq k n) eqn:E; cbn [negb].
+  - symmetry. clear IH K2. induction r as [|[k' v'] r' IHr]; [reflexivity|].
+    cbn [existsb fst] in K1. apply orb_false_iff in K1 as [S1 S2].
+    cbn [filter fst]. destruct (key_eq k' n) eqn:E'.
+    + rewrite (key_eq_same _ _ _ E E') in S1. discriminate.
+    + cbn [negb]. f_equal. apply IHr. exact S2.
+  - f_equal. apply IH. exact K2.
+Qed.
+
+Lemma keys_nodup_filter : forall V (f : key * V -> bool) (d : list (key * V)),
+  keys_nodup d = true -> keys_nodup (filter f d) = true.
+Proof.
+  intros V f d; induction d as [|[k v] r IH]; intros KN; [reflexivity|].
+  cbn [keys_nodup] in KN. apply andb_true_iff in KN as [K1 K2]. apply negb_true_iff in K1.
+  cbn [filter]. destruct (f (k, v)); [|apply IH; exact K2].
+  cbn [keys_nodup]. apply andb_true_iff. split; [|apply IH; exact K2].
+  apply negb_true_iff. destruct (existsb (fun kv => key_same k (fst kv)) (filter f r)) eqn:X; [|reflexivity].
+  apply existsb_exists in X as [kv [I S]]. apply filter_In in I as [I _].
+  rewrite (existsb_false_In _ _ _ _ K1 I) in S. discriminate.
+Qed.
+
+Lemma filter_filter : forall A (f g : A -> bool) l,
+  filter g (filter f l) = filter (fun x => f x && g x) l.
+Proof.
+  intros A f g l; induction l as [|x r IH]; [reflexivity|]. cbn [filter].
+  destruct (f x); cbn [filter andb]; [destruct (g x); rewrite IH; reflexivity|exact IH].
+Qed.
+
+(* what the pop loop computes: every name that some key equals gets that key's value, and exactly
+   those keys leave the dict (order of the rest preserved) *)
+Lemma dict_pop_all_spec : forall V ns idx off (values : list (option V)) d,
+  NoDup ns -> keys_nodup d = true ->
+  let '(values', d') := dict_pop_all ns idx off values d in
+  length values' = length values /\
+  (forall a, nth a values' None =
+     if (off + idx <=? a) && (a <? off + idx + length ns) && (a <? length values)
+     then match dict_get (nth (a - off - idx) ns 0) d with Some v => Some v | None => nth a values None end
+     else nth a values None) /\
+  d' = filter (fun kv => negb (existsb (key_eq (fst kv)) ns)) d.
+Proof.
+  intros V ns; induction ns as [|n ns IH]; intros idx off values d ND KN.
+  - cbn [dict_pop_all length existsb negb]. split; [reflexivity|]. split.
+    + intros a. replace (a <? off + idx + 0) with (negb (off + idx + 0 <=? a))
+        by (destruct (Nat.ltb_spec a (off + idx + 0)), (Nat.leb_spec (off + idx + 0) a); auto; lia).
+      rewrite Nat.add_0_r. destruct (off + idx <=? a); reflexivity.
+    + symmetry. clear. induction d as [|x r IHd]; [reflexivity|]. cbn [filter]. f_equal. exact IHd.
+  - inversion ND as [|? ? NI ND']; subst. cbn [dict_pop_all].
+    destruct (dict_get n d) as [v|] eqn:G.
+    + specialize (IH (S idx) off (upd (off + idx) (Some v) values) (dict_del n d) ND').
+      rewrite (dict_del_filter _ n d KN) in IH at 1.
+      specialize (IH (keys_nodup_filter _ _ _ KN)).
+      destruct (dict_pop_all ns (S idx) off (upd (off + idx) (Some v) values) (dict_del n d)) as [values' d'].
+      destruct IH as [L [P D]]. rewrite upd_length in L. split; [exact L|]. split.
+      * intros a. rewrite P, upd_length, nth_upd. cbn [length].
+        destruct (Nat.eq_dec a (off + idx)) as [->|NE].
+        { replace (off + S idx <=? off + idx) with false by (symmetry; apply Nat.leb_gt; lia).
+          cbn [andb]. rewrite Nat.eqb_refl, Nat.leb_refl.
+          replace (off + idx <? off + idx + S (length ns)) with true by (symmetry; apply Nat.ltb_lt; lia).
+          cbn [andb]. replace (off + idx - off - idx) with 0 by lia. cbn [nth]. rewrite G.
+          destruct (off + idx <? length values); reflexivity. }
+        replace (a =? off + idx) with false by (symmetry; apply Nat.eqb_neq; exact NE). cbn [andb].
+        destruct (Nat.leb_spec (off + S idx) a) as [LE|GT].
+        { replace (off + idx <=? a) with true by (symmetry; apply Nat.leb_le; lia).
+          replace (a <? off + S idx + length ns) with (a <? off + idx + S (length ns))
+            by (destruct (Nat.ltb_spec a (off + S idx + length ns)), (Nat.ltb_spec a (off + idx + S (length ns))); auto; lia).
+          cbn [andb]. destruct (a <? off + idx + S (length ns)) eqn:B; [|reflexivity]. cbn [andb].
+          destruct (a <? length values); [|reflexivity].
+          apply Nat.ltb_lt in B.
+          replace (a - off - idx) with (S (a - off - S idx)) by lia. cbn [nth].
+          rewrite dict_get_del_other; [reflexivity|].
+          intros ->. apply NI. apply nth_In. lia. }
+        { replace (off + idx <=? a) with false by (symmetry; apply Nat.leb_gt; lia). reflexivity. }
+      * rewrite D, (dict_del_filter _ n d KN), filter_filter. apply filter_ext. intros [k x].
+        cbn [existsb fst]. rewrite negb_orb. reflexivity.
+    + specialize (IH (S idx) off values d ND' KN).
+      destruct (dict_pop_all ns (S idx) off values d) as [values' d'].
+      destruct IH as [L [P D]]. split; [exact L|]. split.
+      * intros a. rewrite P. cbn [length].
+        destruct (Nat.eq_dec a (off + idx)) as [->|NE].
+        { replace (off + S idx <=? off + idx) with false by (symmetry; apply Nat.leb_gt; lia).
+          cbn [andb]. rewrite Nat.leb_refl.
+          replace (off + idx <? off + idx + S (length ns)) with true by (symmetry; apply Nat.ltb_lt; lia).
+          cbn [andb]. replace (off + idx - off - idx) with 0 by lia. cbn [nth]. rewrite G.
+          destruct (off + idx <? length values); reflexivity. }
+        destruct (Nat.leb_spec (off + S idx) a) as [LE|GT].
+        { replace (off + idx <=? a) with true by (symmetry; apply Nat.leb_le; lia).
+          replace (a <? off + S idx + length ns) with (a <? off + idx + S (length ns))
+            by (destruct (Nat.ltb_spec a (off + S idx + length ns)), (Nat.ltb_spec a (off + idx + S (length ns))); auto; lia).
+          cbn [andb]. destruct (a <? off + idx + S (length ns)) eqn:B; [|reflexivity]. cbn [andb].
+          destruct (a <? length values); [|reflexivity].
+          apply Nat.ltb_lt in B.
+          replace (a - off - idx) with (S (a - off - S idx)) by lia. reflexivity. }
+        { replace (off + idx <=? a) with false by (symmetry; apply Nat.leb_gt; lia). reflexivity. }
+      * rewrite D. apply filter_ext_in. intros [k x] I. cbn [existsb fst].
+        destruct (key_eq k n) eqn:E; [|reflexivity].
+        exfalso. pose proof (dict_get_In _ n d (k, x) I E) as Q. congruence.
+Qed.
+
+(* ---------- __Pyx_ParseKeywordDictToDict agrees with the reference loop ---------- *)
+Definition matched_from (names : list nat) (first : nat) (k : key) : bool :=
+  match midx k names with Some i => first <=? i | None => false end.
+
+Lemma existsb_skipn_midx : forall k names first, NoDup names ->
+  existsb (key_eq k) (skipn first names) = matched_from names first k.
+Proof.
+  intros k names first ND. apply eq_true_iff_eq. unfold matched_from. split.
+  - intros H. apply existsb_exists in H as [n [I E]].
+    destruct (In_nth _ _ 0 I) as [j [L N]]. rewrite skipn_length in L. rewrite nth_skipn in N.
+    rewrite <- N in E. rewrite (midx_unique k names (first + j) ND ltac:(lia) E).
+    apply Nat.leb_le. lia.
+  - intros H. destruct (midx k names) as [i|] eqn:M; [|discriminate].
+    apply Nat.leb_le in H. destruct (midx_Some _ _ _ M) as [L E].
+    apply existsb_exists. exists (nth i names 0). split; [|exact E].
+    replace i with (first + (i - first)) by lia. rewrite <- nth_skipn. apply nth_In.
+    rewrite skipn_length. lia.
+Qed.
+
+Lemma all_str_nonstr : forall V (kws : list (key * V)), all_str kws -> nonstr_in kws = false.
+Proof.
+  intros V kws AS. unfold nonstr_in. destruct (existsb _ kws) eqn:X; [|reflexivity].
+  apply existsb_exists in X as [kv [I E]]. rewrite (AS kv I) in E. discriminate.
+Qed.
+
+Lemma existsb_bad_lenient : forall V (kws : list (key * V)) names first,
+  existsb (fun kv => kw_bad names first false (fst kv)) kws = existsb (fun kv => kw_dup names first (fst kv)) kws.
+Proof.
+  intros V kws names first; induction kws as [|kv r IH]; [reflexivity|]. cbn [existsb]. rewrite IH.
+  unfold kw_bad. cbn [andb]. rewrite orb_false_r. reflexivity.
+Qed.
+
+Theorem parser_ok_dict2dict : forall V (kws : list (key * V)) names first off ignore values,
+  NoDup names -> all_str kws -> keys_nodup kws = true -> first <= length names ->
+  sim (parse_keywords PDict kws names first off ignore values (Some []))
+      (parse_ref kws names first off ignore values (Some [])).
+Proof.
+  intros V kws names first off ignore values ND AS KN FL.
+  cbn [parse_keywords]. unfold parse_dict2dict. rewrite (all_str_nonstr _ _ AS).
+  rewrite (dict_update_fresh V kws [] KN) by (intros ? ? ? []). cbn [app].
+  pose proof (dict_pop_all_spec V (skipn first names) first off values kws) as S.
+  assert (NDs : NoDup (skipn first names)).
+  { rewrite <- (firstn_skipn first names) in ND. apply NoDup_app_r in ND. exact ND. }
+  specialize (S NDs KN).
+  destruct (dict_pop_all (skipn first names) first off values kws) as [values' d2].
+  destruct S as [L [P D]].
+  pose proof (parse_ref_ok V kws names first off ignore values (Some []) ND AS KN) as R.
+  specialize (R ltac:(intros d [= <-] ? ? ? [])).
+  cbn [strict_of] in R. rewrite existsb_bad_lenient in R.
+  rewrite (validate_dup_exact V kws names first ND).
+  assert (D2 : d2 = filter (fun kv => negb (matched_from names first (fst kv))) kws).
+  { rewrite D. apply filter_ext. intros kv. rewrite existsb_skipn_midx by exact ND. reflexivity. }
+  destruct (parse_ref kws names first off ignore values (Some [])) as [e|[vals' kw']].
+  - destruct R as [_ B]. rewrite B.
+    assert (NE : (0 <? length d2) = true).
+    { apply existsb_exists in B as [kv [I Dp]].
+      assert (I2 : In kv d2).
+      { rewrite D2. apply filter_In. split; [exact I|]. unfold kw_dup in Dp. unfold matched_from.
+        destruct (midx (fst kv) names); [exact Dp|reflexivity]. }
+      destruct d2; [contradiction|reflexivity]. }
+    rewrite NE. cbn [sim]. discriminate.
+  - destruct R as [B [L' [P' K']]]. rewrite B.
+    assert (EV : values' = vals').
+    { apply (nth_ext _ _ None None); [congruence|]. intros a _. rewrite P, P'. unfold ref_at.
+      rewrite skipn_length.
+      replace (off + first + (length names - first)) with (off + length names) by lia.
+      destruct ((off + first <=? a) && (a <? off + length names) && (a <? length values)) eqn:C; [|reflexivity].
+      apply andb_true_iff in C as [C _]. apply andb_true_iff in C as [C _]. apply Nat.leb_le in C.
+      rewrite nth_skipn. replace (first + (a - off - first)) with (a - off) by lia. reflexivity. }
+    assert (ED : Some d2 = kw').
+    { rewrite K'. cbn [option_map app]. f_equal. rewrite D2. apply filter_ext_in. intros kv I.
+      pose proof (existsb_false_In _ _ _ _ B I) as Q. cbn beta in Q.
+      unfold kw_dup in Q. unfold matched_from, kw_unknown.
+      destruct (midx (fst kv) names); [rewrite Q; reflexivity|reflexivity]. }
+    destruct (0 <? length d2); cbn [sim]; rewrite EV, ED; reflexivity.
+Qed.
+
+Lemma parser_ok_sel_dict_some : parser_ok_sel PDict true.
+Proof.
+  intros V kws names first off ignore values kw0 ND AS KN FL _ _ ->.
+  apply parser_ok_dict2dict; assumption.
+Qed.
+
+(* FULL statement, no obligation left, for every signature whose body uses its **kwargs: all four
+   calling conventions, the kwds-dict convention included *)
+Theorem call_eq_starstar : forall V vc pth s (c : call V),
+  wf_sig s = true -> wf_path pth s = true -> wf_entry vc pth = true -> keys_nodup (c_kws c) = true ->
+  s_starstar s && s_kwused s = true ->
+  erase s (call_cy vc pth s c) = erase s (call_py s c).
+Proof.
+  intros V vc pth s c WS WP WE KN H. apply call_eq_sel; auto. intros _. rewrite H.
+  destruct pth; try (apply parser_ok_sel_of, parser_ok_tuple; discriminate).
+  apply parser_ok_sel_dict_some.
+Qed.
